@@ -212,7 +212,11 @@ def knownUnconverted : List (String × String) := [
   ("li", "nd_obj_int"), ("li", "series_obj_int"), ("inner", "nd_obj_int"), ("inner", "series_obj_int"),
   ("li", "actg_ragged"), ("li", "actg_flat"), ("inner", "actg_ragged"), ("inner", "actg_flat"),
   ("inner", "nd_int"), ("inner", "nd_float"), ("inner", "nd_bool"), ("inner", "nd_str"), ("inner", "encoded_ragged"),
-  ("inner", "dna_ragged"), ("inner", "string_array"), ("inner", "ragged_int"), ("inner", "series_str"), ("inner", "series_int")]
+  ("inner", "dna_ragged"), ("inner", "string_array"), ("inner", "ragged_int"), ("inner", "series_str"), ("inner", "series_int"),
+  -- text in its other carriers (bytes, object arrays, NumPy str_ scalars, raw identifier bytes)
+  ("opt", "list_bytes"), ("opt", "nd_bytes"), ("opt", "list_npstr"), ("opt", "sid_raw"),
+  ("li", "nd_obj_str"), ("li", "list_npstr"),
+  ("inner", "nd_bytes"), ("inner", "nd_obj_str"), ("inner", "nd_obj_bytes"), ("inner", "sid_raw"), ("inner", "series_bytes")]
 
 /-- (field kind, argument form, stored class) cells where a numeric field keeps the numeric dtype of the VALUES
 instead of the declared one (`np.asanyarray` without a dtype: an `int` field given floats / None / booleans stores
